@@ -270,3 +270,61 @@ Theorem C04_model_passes_on_the_wire : forall v,
   l_var (dec_lcase v) = fixed -> ok_C04 (dec_lcase v) (dec_obs (lts_run v)) = true.
 Proof. exact (fun v H => proj2 (proj2 (wire_model_passes v H))). Qed.
 Print Assumptions C04_model_passes_on_the_wire.
+
+(* ---- packets that are not video -------------------------------------------------------------
+   The LTS sees a packet as (id, kind); kind 2 is the key flag CachePack returns and the only thing
+   that lets consumption.send begin or end dropping.  For a packet given by its channel and its RTP
+   payload bytes the kind is the classification of Model/C02Classify.v ([raw_pkt], Model/C04RawPkt.v).
+   Whatever the bytes look like (G.711 samples, RTCP reports, another codec: one first byte in 32
+   looks like an IDR NAL header), a packet that is not on the video channel is never a key-frame
+   start and never changes the discarding flag; so every statement above about key-frame starts is
+   about video key-frame starts.  The check publishes such look-alike packets on the audio and RTCP
+   channels in its stall/resume scripts. *)
+From V Require Import Val C02Classify C04RawPkt C04RawPktProofs C04Oracle C04OracleProofs.
+
+Theorem C04_nonvideo_never_key : forall c i ch payload,
+  ch <> 0%Z -> p_key (raw_pkt c i ch payload) = false.
+Proof. exact raw_nonvideo_not_key. Qed.
+Print Assumptions C04_nonvideo_never_key.
+
+Theorem C04_key_is_video_key : forall c i ch payload,
+  p_key (raw_pkt c i ch payload) = true ->
+  ch = 0%Z /\ exists f, codec_flags c payload = FOk f /\ kind_of_flags c f = 2%Z.
+Proof. exact raw_key_is_video_key. Qed.
+Print Assumptions C04_key_is_video_key.
+
+Theorem C04_nonvideo_never_toggles_discarding : forall maxq k c i ch payload,
+  ch <> 0%Z -> c_disc (send maxq k (raw_pkt c i ch payload)) = c_disc k.
+Proof. exact nonvideo_never_toggles_discarding. Qed.
+Print Assumptions C04_nonvideo_never_toggles_discarding.
+
+(* the wire: an entry (id _ channel payload) of a case is decoded to [raw_pkt] *)
+Theorem C04_wire_raw_packet : forall c i x ch payload rest,
+  dec_pkt (norm_pkt c (VL (VI i :: x :: VI ch :: VB payload :: rest))) = raw_pkt c i ch payload.
+Proof. exact norm_pkt_raw. Qed.
+Print Assumptions C04_wire_raw_packet.
+
+(* The oracle the check applies, [ok_C04x] (Model/C04Oracle.v) = [ok_C04] and the clause that a drop
+   also BEGINS only at a key-frame start: of two consecutive delivered ids of the live part whose
+   published positions are not adjacent, the packet published right after the first one starts a
+   key frame (the second one does by [ok_C04]).  The model passes it on every case, packets given
+   by kind or by bytes. *)
+Theorem C04_model_passes_drop_begin_and_end : forall c : lcase,
+  l_var c = fixed -> ok_C04x c (obs_of_state (l_n c) (lrun c)) = true.
+Proof. exact C04x_model_passes. Qed.
+Print Assumptions C04_model_passes_drop_begin_and_end.
+
+Theorem C04_model_passes_on_the_wire_raw : forall v,
+  l_var (dec_lcase v) = fixed ->
+  ok_C04x (dec_lcase (norm_case v)) (dec_obs (lts_run (norm_case v))) = true.
+Proof. exact C04x_model_passes_on_the_wire. Qed.
+Print Assumptions C04_model_passes_on_the_wire_raw.
+
+(* non-vacuity: an audio packet (channel 2) whose payload starts like an IDR slice (0x65) and one
+   that starts like an HEVC IDR_W_RADL (19 << 1) are kind 0; the same bytes on the video channel
+   are key-frame starts *)
+Example C04_nonvacuous_lookalike :
+  raw_kind H264 2 [101; 0; 0; 0; 7; 1; 2; 3]%Z = 0%Z /\ raw_kind H264 0 [101; 0; 0; 0; 7; 1; 2; 3]%Z = 2%Z /\
+  raw_kind H265 3 [38; 1; 0; 0; 7; 1; 2; 3]%Z = 0%Z /\ raw_kind H265 0 [38; 1; 0; 0; 7; 1; 2; 3]%Z = 2%Z.
+Proof. vm_compute. repeat split. Qed.
+
